@@ -334,8 +334,6 @@ def harnesses(tier):
             th = None
             if sh == 'rotrect' and tier == 'quick' and (xk, yk) != ('num', 'num'):
                 th = [math.pi / 2, 0.6]
-            if sh == 'ellipse' and tier == 'thorough' and (xk, yk) != ('num', 'num'):
-                th = [0.0, 2.0]
             hs.append(Harness('%s axes=(%s,%s)' % (sh, xk, yk), body_polylike,
                               params=dict(kinds=k, shape=sh, nrows=nrows if sh in SHAPES else 2, thetas=th,
                                           xperms=[0, 3, 5] if tier == 'quick' else None, yperms=[1, 4] if tier == 'quick' else None),
